@@ -19,6 +19,7 @@ import (
 	"github.com/bbva/qed/storage"
 
 	"qedverif/lib"
+	"qedverif/props/hostile"
 	"qedverif/ref"
 )
 
@@ -447,6 +448,8 @@ func RunC07(c *lib.Ctx) {
 		}
 	})
 	c.Extra("enumerated_part_covers_every_store_write_of_W", true)
+	// 3-process clusters: a follower or the leader is SIGKILLed under load and comes back
+	hostile.RunClusterKills(c, c.Q(3, 18))
 }
 
 func dumpLines(out string) map[string]string {
